@@ -329,7 +329,7 @@ def execute(plan: dict) -> dict:
         snap['rep'] = {}
         for nb in nbrs:
             peer = w.peer_for(nb['peer_ip'])
-            snap['rep'][nb['idx']] = {k: (RW.LOCAL if v[0] == 'self' else v[0], v[1]) for k, v in RW.reported_table(peer.neighbor, False).items()} if peer is not None else None
+            snap['rep'][nb['idx']] = {k: ((RW.LOCAL if v[0] == 'self' else v[0]),) + tuple(v[1:]) for k, v in RW.reported_table(peer.neighbor, False).items()} if peer is not None else None
         snap['peer'] = {nb['idx']: (RW.peer_view(speakers[nb['idx']].established().table) if speakers[nb['idx']].established() else None) for nb in nbrs}
         snap['attrs'] = {nb['idx']: (RW.attrs_mismatch(speakers[nb['idx']].established().table, variants, nb) if speakers[nb['idx']].established() else None) for nb in nbrs}
 
